@@ -64,7 +64,7 @@ W5 = REG.add(Contract(
     requires=lambda c: WS.well_shape(c),
     raises=[("KeyError", lambda c: z3.And(isnan(c.a["n"].t), LI.nomatch(WS.wv(c), K_NULL)))],
     ensures=w5_post, returns=STR, verify_with=verify_w5,
-    properties=("C01", "C06"), may_raise=[], reveal=("np",)))
+    properties=("C01", "C06", "C12", "C11"), may_raise=[], reveal=("np",), free_default=True))
 
 
 # ---------------------------------------------------------------- W7: the data-row loop of writer.write (unwrapped case)
